@@ -141,6 +141,22 @@ def BR.nrBitsRead (r : BR) : Int :=
   let cur : Int := 8 - (r.n : Int)
   if cur ≠ 8 then (r.nread : Int) * 8 + cur - 8 else (r.nread : Int) * 8
 
+/-- `Reader.ReadSigned(k)` (k ≥ 1): two's complement interpretation of the k bits -/
+def BR.readSigned (r : BR) (k : Nat) : BR × Int :=
+  let (r', v) := r.read k
+  (r', if v >>> (k - 1) = 1 then (v : Int) - (2 ^ k : Nat) else (v : Int))
+
+/-- `Reader.ReadFlag`: false on error -/
+def BR.readFlag (r : BR) : BR × Bool :=
+  let (r', v) := r.read 1
+  (r', !r'.err && v = 1)
+
+/-- `Reader.ReadRemainingBytes`: only at a byte boundary; the byte counter does not move -/
+def BR.readRemainingBytes (r : BR) : BR × Option Bytes :=
+  if r.err then (r, none)
+  else if r.n ≠ 0 then ({ r with err := true }, none)
+  else ({ r with rest := [] }, some r.rest)
+
 /-! ## bits.EBSPReader -/
 
 structure ER where
